@@ -160,8 +160,12 @@ def playback(overlay, package, harness, release_too=False):
     overlay copy), then runs that unit test natively. Returns dict(reproduced=bool|None, test=<source text>, log=<tail>)."""
     env = base_env()
     pre = {}
-    for rel, mod, p in overlay.injected:
-        pre[p] = open(p).read()
+    pkgdir = overlay.path("toktrie" if package == "toktrie" else "parser", "src")
+    for root, _d, files in os.walk(pkgdir):
+        for fn in files:
+            if fn.endswith(".rs"):
+                p = os.path.join(root, fn)
+                pre[p] = open(p).read()
     cmd = ["cargo", "kani", "-p", package, "-Z", "concrete-playback", "--concrete-playback=inplace"] + KANI_FEATURES.get(package, []) + \
           ["--harness", harness, "--exact"]
     sh = "ulimit -s unlimited 2>/dev/null; exec " + " ".join(_q(c) for c in cmd)
